@@ -215,6 +215,7 @@ func main() {
 		sec("readSide", func() interface{} { return readFacts(llrp) })
 		sec("chanCaps", func() interface{} { return chanCaps(llrp) })
 		sec("closeSites", func() interface{} { return gateFacts(llrp) })
+		sec("initCheckSites", func() interface{} { return initCheckFacts(llrp) })
 		sec("probe", func() interface{} { return probeFacts(drv) })
 		out["_errors"] = errs
 		enc := json.NewEncoder(os.Stdout)
